@@ -38,6 +38,11 @@ theorem gen_link_read_once : Gen.C10.sendReadsLinkOnce = true := by decide
 /-- the match comparison of `_check_for_answers` (translated, `Gen.C10.checkBetter`) prefers the strictly longer match -/
 theorem gen_check_better (a b : Nat) :
     (b < a → Gen.C10.checkBetter a b = true) ∧ (a < b → Gen.C10.checkBetter a b = false) := checkBetter_spec a b
+/-- `close_link` / `_link_error_cb` forget the patterns before they run the user callbacks (which may open a new link), and
+`open_link` forgets them before the new link object is installed: the model's `closeRest` / `linkError` / `openLink` steps do it in
+that order. -/
+theorem gen_forget_order : Gen.C10.closeForgetsBeforeCallbacks = true ∧ Gen.C10.errorForgetsBeforeCallbacks = true ∧
+    Gen.C10.openForgetsBeforeLink = true := by decide
 theorem gen_setpoint : Gen.C10.setpointSendArgs = ["pk"] ∧ Gen.C10.setpointSize ≤ Gen.C10.maxDataSize := by decide
 
 /-! ## longest-prefix cancellation -/
